@@ -52,8 +52,9 @@ def gen_shape(rng):
 
 
 class Mode:
-    def __init__(self, shape, uid, sigs):
+    def __init__(self, shape, uid, sigs, layer=None):
         self.shape = shape
+        layer = layer or {}
         self.name = "SA%d_%d" % (os.getpid(), uid)
         self.cb = []
         self.action = None
@@ -69,7 +70,13 @@ class Mode:
             exec(src, ns)
             return ns[name]
         ns = {"MODE_NAME": self.name}
+        base_ns = {}       # states declared on a base class of the mode (layer 0); "ov": a base-class variant with another
+        top_ns = ns        # duration / next state that the mode overrides
         for s in shape["states"]:
+            ly = layer.get(s, "top")
+            ns = base_ns if ly == "base" else top_ns
+            if ly == "ov":
+                base_ns[s] = timed_state(duration=7, next_state=shape["first"])(mkfn(s, []))
             fn = mkfn(s, sigs[s])
             first = s == shape["first"]
             if shape["durOf"][s] != -1:
@@ -86,8 +93,12 @@ class Mode:
         def initialize(self_):
             v0 = shape["var0"]
             self_.register_sd_var("v", v0 // 4 if v0 % 4 == 0 else v0 / 4.0)
+        ns = top_ns
         ns["initialize"] = initialize
-        cls = type("Gen" + self.name, (StatefulAutonomous,), ns)
+        root = StatefulAutonomous
+        if base_ns:
+            root = type("GenBase" + self.name, (StatefulAutonomous,), base_ns)
+        cls = type("Gen" + self.name, (root,), ns)
         self.obj = cls()
         self.table = ntcore.NetworkTableInstance.getDefault().getTable("SmartDashboard")
 
@@ -167,9 +178,9 @@ def random_events(rng, shape, n):
 _uid = itertools.count()
 
 
-def run_trace(tid, shape, events, sigs):
+def run_trace(tid, shape, events, sigs, layer=None):
     try:
-        m = Mode(shape, next(_uid), sigs)
+        m = Mode(shape, next(_uid), sigs, layer)
     except Exception as e:  # noqa  - defining / constructing the mode raised
         return {"id": tid, "shape": shape, "extra": {"sigs": sigs},
                 "steps": [{"in": {"e": "raised"}, "out": {"cb": [], "err": "%s: %s" % (type(e).__name__, e)}}]}
@@ -182,7 +193,7 @@ def run_trace(tid, shape, events, sigs):
             steps.append({"in": {"e": "raised"}, "out": {"cb": [], "err": "%s: %s" % (type(e).__name__, e), "at": ev}})
             break
         steps.append({"in": ev, "out": out})
-    return {"id": tid, "shape": shape, "extra": {"sigs": sigs}, "steps": steps}
+    return {"id": tid, "shape": shape, "extra": {"sigs": sigs, "layer": layer or {}}, "steps": steps}
 
 
 def main():
@@ -198,13 +209,14 @@ def main():
         for j in json.load(open(a.scripts)):
             sh = j["shape"]
             sigs = (j.get("extra") or {}).get("sigs") or {s: list(PARAMS) for s in sh["states"]}
-            traces.append(run_trace(j["id"], sh, j["events"], sigs))
+            traces.append(run_trace(j["id"], sh, j["events"], sigs, (j.get("extra") or {}).get("layer")))
     else:
         rng = random.Random(a.seed)
         for i in range(a.n):
             sh = gen_shape(rng)
             sigs = {s: rng.choice(ALL_SIGS) for s in sh["states"]}
-            traces.append(run_trace(a.first_id + i, sh, random_events(rng, sh, rng.choice([30, 60, 120])), sigs))
+            layer = {s: rng.choice(["top", "top", "base", "ov"]) for s in sh["states"]} if rng.random() < 0.5 else {}
+            traces.append(run_trace(a.first_id + i, sh, random_events(rng, sh, rng.choice([30, 60, 120])), sigs, layer))
     json.dump(traces, open(a.out, "w"))
 
 
